@@ -39,7 +39,7 @@ def run(tier):
     if tier == 'quick':
         tasks = [(base + i, 2 + i % 3, 2 + i % 3, 1 + i % 4) for i in range(64)]
     else:
-        tasks = [(base + i, 2 + i % 4, 2 + i % 4, 1 + i % 6) for i in range(1200)]
+        tasks = [(base + i, 2 + i % 4, 2 + i % 4, 1 + i % 6) for i in range(4000)]
     for r in run_pool(worker, tasks):
         rep.merge(r)
     rep.explanation = ('Generated MCNP partition decks (cell i = e_i and not the earlier cells, written with #n) with symbolic surface '
